@@ -66,6 +66,10 @@ def gen_search_requests(rng, tier):
     """sessions of real src_search runs: search <mode> <strat> <n> <param> <preva> <gens> <inds> <vseed> <k1> [<k2>…]"""
     reqs = []
     ns = 120 if tier == "quick" else 1500
+    # boundary sessions first, at every seed: the user asks for 0 % / 1 % / 99 % explicitly and the strategy is driven
+    # through the real src_search (tune_parameters must leave an explicit value alone)
+    for n, perc in ((2, 0), (40, 0), (40, 1), (40, 99), (2, 50)):
+        reqs.append("search real holdout %d %d 0 1 8 %d 1" % (n, perc, rng.below(1 << 31)))
     for k in range(ns):
         mode = "spy" if rng.below(2) else "real"
         strat = rng.choice(["dss", "dss", "dss", "holdout", "holdout", "asis"])
